@@ -1,4 +1,5 @@
 import SctpVerif.Proofs.ReasmUnordMidRun
+import SctpVerif.Proofs.ReasmUnordMix
 /-!
 # C06, receive half at the reassembly queue — unordered messages: at most once, intact, never a fragment or a splice
 
@@ -27,6 +28,11 @@ Vocabulary (`Proofs/ReasmOrd.lean`, `Proofs/ReasmUnord*.lean`):
   refuses fragments with `ErrReassemblyQueueDataLimit…`; a refused fragment is not in the queue, the association does not
   acknowledge it). `S.out k` = `(PPI, payload)` of message `k`; `S.uset σ k` = the complete set of message `k` as it
   waits in `unordered`.
+* mixed classes (`Proofs/ReasmUnordMix.lean`): `MOp` = `pushO k i` (fragment of ordered message `k` of universe `SO`, as in
+  C01) | `pushU k i` (fragment of unordered message `k` of universe `SU`, same stream id) | `read n`;
+  `mixDeliveries` tags every successful read with the class that served it (`true`: a complete unordered message was
+  waiting — `read` serves it first); `ordPart` / `unordPart` split the history by that tag; `AdmissibleM` = `Admissible`
+  (window 2^15 relative to the number of ORDERED messages read) for `pushO` and `AdmissibleU` for `pushU`.
 -/
 namespace C06
 open Reasm
@@ -166,6 +172,70 @@ theorem C06_reasm_unordered_idata_exactly_once (S : Sender) (hS : S.UMWF) (τ : 
     · exact h
     · rw [hdrained] at h; simp at h
 
+/-- frame lemmas, universe free (ANY queue state, DATA framing): (1) a push of an ordered DATA chunk commutes with
+masking `unordered` and leaves `unordered` / `unorderedChunks` untouched; (2) a push of an unordered DATA chunk of this
+stream leaves the ordered containers and both cursors untouched; (3) with a complete unordered message waiting, `read`
+serves THAT one, before any ordered message, and leaves the ordered container and cursor untouched. -/
+theorem C06_reasm_class_frames (q : Q) (c : Chunk) (hd : c.iData = false) :
+    (c.unordered = false →
+      (({ q with unordered := [] } : Q).pushWithError c).1 = { (q.pushWithError c).1 with unordered := [] } ∧
+      (q.pushWithError c).1.unordered = q.unordered ∧ (q.pushWithError c).1.unorderedChunks = q.unorderedChunks) ∧
+    (c.unordered = true → c.si = q.si →
+      (q.pushWithError c).1.ordered = q.ordered ∧ (q.pushWithError c).1.nextSSN = q.nextSSN ∧
+      (q.pushWithError c).1.orderedMID = q.orderedMID ∧ (q.pushWithError c).1.nextMID = q.nextMID) ∧
+    (∀ cset rest n, q.useInterleaving = false → q.unordered = cset :: rest →
+      (q.read n).1.ordered = q.ordered ∧ (q.read n).1.nextSSN = q.nextSSN ∧
+      ((q.read n).2.err = .ok → (q.read n).1.unordered = rest ∧ (q.read n).2.ppi = cset.ppi ∧
+        (q.read n).2.data = (cset.chunks.map (·.userData)).flatten)) := by
+  refine ⟨?_, ?_, ?_⟩
+  · intro hu
+    obtain ⟨a, b, c', _, _⟩ := pushO_frame q c hd hu
+    exact ⟨a, b, c'⟩
+  · intro hu hsi
+    rcases pushU_cases q c hd hsi hu with h | ⟨_, _, h⟩ | ⟨_, _, _, _, _, _, _, _, h⟩ <;> rw [h] <;>
+      exact ⟨rfl, rfl, rfl, rfl⟩
+  · intro cset rest n hil hun
+    unfold Q.read
+    simp only [hil, Bool.false_eq_true, ↓reduceIte, hun]
+    cases herr : (copyLoop (n : Int) cset.chunks 0 false []).2.1 with
+    | true => simp [hun]
+    | false =>
+      have := copyLoop_ok _ _ _ _ herr
+      simp [Q.subtractNumBytes, this]
+
+/-- ✱ ordered and unordered messages on the SAME stream (DATA framing) do not disturb each other: on every admissible
+mixed run the reads served from the ordered container are a PREFIX of the ordered writes (the statement of
+`C01_reasm_ordered_data`) and, side by side, the reads served from `unordered` satisfy the statement of
+`C06_reasm_unordered_data` (each unordered message at most once, whole, with its PPI; everything taken completely is
+read or waits complete). -/
+theorem C06_reasm_mixed_classes (SO SU : Sender) (hSO : SO.WF) (hSU : SU.UWF) (hsi : SU.si = SO.si)
+    (σ : Nat → BitVec 16) (maxEntries : BitVec 32) (ops : List MOp)
+    (hadm : AdmissibleM SO SU SO.dataFrag (SU.udataFrag σ) (new SO.si maxEntries) 0 [] [] ops) :
+    ordPart (mixDeliveries SO.dataFrag (SU.udataFrag σ) (new SO.si maxEntries) ops) <+: SO.msgs.map Msg.out ∧
+    ∃ D : List Nat, D.Nodup ∧ (∀ k ∈ D, k < SU.msgs.length) ∧
+      unordPart (mixDeliveries SO.dataFrag (SU.udataFrag σ) (new SO.si maxEntries) ops) = D.map SU.out ∧
+      (∀ k, k < SU.msgs.length →
+        (∀ i, i < SU.nf k → (k, i) ∈ mixAccepted SO.dataFrag (SU.udataFrag σ) (new SO.si maxEntries) ops) →
+        k ∈ D ∨ SU.uset σ k ∈ (mixFinal SO.dataFrag (SU.udataFrag σ) (new SO.si maxEntries) ops).unordered) := by
+  have hu0 : UInv SU σ (new SO.si maxEntries) [] [] [] [] [] := hsi ▸ UInv_new SU hSU σ maxEntries
+  obtain ⟨hpre, D, W, U, P, G, h, hdel, hG⟩ :=
+    mix_run hSO hSU hsi ops (q := new SO.si maxEntries) (OrdInv_new SO maxEntries) hu0 hadm
+  simp only [List.nil_append] at h
+  have hnd := h.nodup
+  rw [List.nodup_append] at hnd
+  refine ⟨by simpa using hpre, D, hnd.1, fun k hk => h.dwlen k (by simp [hk]), hdel, ?_⟩
+  intro k hk hall
+  by_cases hin : k ∈ D ++ W
+  · rcases List.mem_append.1 hin with hd | hw
+    · exact .inl hd
+    · right; rw [h.un]; exact List.mem_map.2 ⟨k, hw, rfl⟩
+  · exfalso
+    apply h.nocomp k hk
+    intro j hj
+    rcases h.track (k, j) ((hG _).2 (.inr (hall j hj))) with hu | hdw
+    · exact hu
+    · exact absurd hdw hin
+
 -- non-vacuity (tests, by evaluation): two unordered messages (2 + 2 fragments) whose TSN ranges straddle the 2^32 wrap
 -- and are ADJACENT (…FFFE, …FFFF | 0, 1), so that E of the first and B of the second carry consecutive TSNs; fragments
 -- interleaved, the second message completes first; reads in between, one with a short buffer.
@@ -188,5 +258,17 @@ example : S0.UMWF := ⟨by unfold Sender.WF; decide, by decide⟩
 example : S0.deliveries (S0.uidataFrag fun _ _ => 7) (new S0.si 0) ops0 = [(53, [9, 8]), (51, [1, 2, 3])] := by decide
 example : accepted (S0.uidataFrag fun _ _ => 7) (new S0.si 0) ops0 = [(1, 0), (0, 1), (1, 1), (0, 0)] := by decide
 example : (finalQ (S0.uidataFrag fun _ _ => 7) (new S0.si 0) ops0).unorderedMID = [] := by decide
+
+-- mixed: the ordered universe of C01's example and the unordered one above on stream 3; an ordered message (SSN 0) is
+-- complete and readable, yet the unordered message that completes later is served first by the next read
+private def SO0 : Sender :=
+  { si := 3, t0 := 0x10#32, msgs := [{ ppi := 61, frags := [[4], [5]] }, { ppi := 63, frags := [[6]] }] }
+private def mops0 : List MOp :=
+  [.pushO 1 0, .pushU 1 0, .pushO 0 0, .pushO 0 1, .pushU 1 1, .read 100, .read 100, .pushU 0 0, .read 100, .pushU 0 1,
+   .read 1, .read 100, .read 100]
+example : SO0.WF := by unfold Sender.WF; decide
+example : AdmissibleM SO0 S0 SO0.dataFrag (S0.udataFrag fun _ => 7) (new SO0.si 0) 0 [] [] mops0 := by decide
+example : mixDeliveries SO0.dataFrag (S0.udataFrag fun _ => 7) (new SO0.si 0) mops0 =
+    [(true, 53, [9, 8]), (false, 61, [4, 5]), (false, 63, [6]), (true, 51, [1, 2, 3])] := by decide
 
 end C06
